@@ -169,7 +169,7 @@ def run(tier, seed, started):
     c = res.counters
     kinds = res.sets.get('deviation_kinds', set())
     if c.get('executions', 0) < 500 or not {'next', 'hold', 'release'} <= kinds:
-        raise common.Broken(f'vacuous C09 run: {c} {kinds}')
+        common.vacuous(PROP, res, f'vacuous C09 run: {c} {kinds}')
     coverage = {
         'evaluations': c['executions'],
         'distinct_nontrivial': len(res.sets.get('schedules', ())),
